@@ -117,8 +117,10 @@ pub fn neutralize_raw<'l>(arg: &mut Argument<'l>) -> Result<bool, SimplifyError>
 				// `lhs` being neutral still has the negation effect on `rhs`
 				ArgumentType::Subtract => (None, Some(0)),
 				ArgumentType::Multiply => (Some(1), Some(1)),
-				// these lack lhs neutralization because division by zero would still fail
-				ArgumentType::Divide | ArgumentType::Modulo => (None, Some(1)),
+				// this lacks lhs neutralization because division by zero would still fail
+				ArgumentType::Divide => (None, Some(1)),
+				// modulo has no neutral element (`x % 1` is zero, not `x`)
+				ArgumentType::Modulo => (None, None),
 				ArgumentType::BitAnd => (Some(-1), Some(-1)),
 				ArgumentType::BitOr => (Some(0), Some(0)),
 				ArgumentType::BitXor => (Some(0), Some(0)),
